@@ -251,7 +251,8 @@ namespace Pistache::Http::Header
             if (hasDelta(d))
             {
                 auto delta = d.delta();
-                if (delta.count() > 0)
+                // a timed directive always carries its delta-seconds, 0 included
+                if (delta.count() >= 0)
                 {
                     os << "=" << delta.count();
                 }
